@@ -62,6 +62,20 @@ func init() {
 		Assume:    []string{"links are reliable and FIFO per direction", "the backend learns its own party id from the application (the factory is handed the node id)"},
 		QuickRuns: 2500, QuickSecs: 45, ThorRuns: 40000, ThorSecs: 600,
 	})
+	byzReal := []string{"threshold.Scheme via LoudScheme/SilentScheme (dispatcher, rbcFilter, ack encoding)", "rbc.Receiver", "disc.Member", "disc.SilentSynchronizer", "msg.Box"}
+	byzStub := append([]string{"MPC backend (scripted; records every hand-off)", "Byzantine NIC (adversary rewriting/injecting the traffic of the misbehaving participants and outsiders; never spoofs an honest source)"}, e1Stub...)
+	Register(&Check{
+		ID: "C02", Engine: "netsim", Real: byzReal, Stub: byzStub,
+		Rule:      "one case = one seeded session (KeyGen or Sign, N=3..4, thorough ..6) with 1..N-2 Byzantine participants and outsiders, a drawn subset of fault kinds (equivocation per destination, forged acknowledgements about self/others/unseen digests, early and late, replays, mutated and withheld acknowledgements, outsider traffic) and a delivery schedule; distinct = distinct fingerprint of the sequence of (link, message class, injection) choices; non-trivial = at least one adversarial action fired and at least one broadcast was handed to an honest backend",
+		Assume:    []string{"the transport authenticates the source: the adversary never sends under an honest identity (C16)", "honest links are reliable FIFO"},
+		QuickRuns: 4000, QuickSecs: 50, ThorRuns: 80000, ThorSecs: 900,
+	})
+	Register(&Check{
+		ID: "C03", Engine: "netsim", Real: byzReal, Stub: byzStub,
+		Rule:      "same scenario space as C02 plus honest-only sessions; oracle over the hand-off log vs the simulator's wire log (participant, really transmitted to this party, at most once per sender and round, non-empty; p2p as received); distinct = distinct schedule fingerprint; non-trivial = at least one adversarial action fired and at least one broadcast was handed to an honest backend",
+		Assume:    []string{"the transport authenticates the source: the adversary never sends under an honest identity (C16)", "honest links are reliable FIFO"},
+		QuickRuns: 4000, QuickSecs: 50, ThorRuns: 80000, ThorSecs: 900,
+	})
 	Register(&Check{
 		ID: "C04", Engine: "netsim",
 		Real:      []string{"threshold.Scheme via LoudScheme/SilentScheme", "disc.Member", "disc.SilentSynchronizer", "rbc.Receiver", "msg.Box"},
